@@ -429,6 +429,69 @@ func runC19(c *ctx) {
 		}
 		emitC19(c, evPos(r, evBoard(bd), mv, r.Intn(6) == 0, r.Intn(4) == 0), "constructed", true)
 	}
+	// many road groups: one colour has MORE groups of at least two squares than the board is wide (the per-position group
+	// storage is 2*size words shared by the two colours), the other a near-road (a row or column of flats with one hole) -
+	// either side to move: the holder of the near-road must get its threat, the other side must not be credited with it
+	for k := 0; k < 150*c.scale; k++ {
+		size := 5 + k%4
+		b := evNew(size)
+		near := []tak.Color{tak.White, tak.Black}[r.Intn(2)]
+		many := near.Flip()
+		if r.Intn(5) == 0 {
+			many = near
+		}
+		line := r.Intn(size)
+		hole := r.Intn(size)
+		vertical := r.Intn(2) == 0
+		cell := func(i int) (int, int) {
+			if vertical {
+				return line, i
+			}
+			return i, line
+		}
+		for i := 0; i < size; i++ {
+			if i != hole {
+				x, y := cell(i)
+				b[y][x] = tak.Square{tak.MakePiece(near, tak.Flat)}
+			}
+		}
+		occ := func(x, y int) bool { return x >= 0 && y >= 0 && x < size && y < size && len(b[y][x]) > 0 }
+		hx, hy := cell(hole)
+		nearHole := func(x, y int) bool { return (x-hx)*(x-hx)+(y-hy)*(y-hy) <= 1 }
+		touches := func(x, y int, col tak.Color) bool {
+			for _, d := range [][2]int{{1, 0}, {-1, 0}, {0, 1}, {0, -1}} {
+				if occ(x+d[0], y+d[1]) && b[y+d[1]][x+d[0]][0].Color() == col {
+					return true
+				}
+			}
+			return false
+		}
+		groups := 0
+		for tries := 0; tries < 600 && groups < size+1+r.Intn(3); tries++ {
+			x, y := r.Intn(size), r.Intn(size)
+			x2, y2 := x+1, y
+			if r.Intn(2) == 0 {
+				x2, y2 = x, y+1
+			}
+			if x2 >= size || y2 >= size || occ(x, y) || occ(x2, y2) || nearHole(x, y) || nearHole(x2, y2) || touches(x, y, many) || touches(x2, y2, many) {
+				continue
+			}
+			b[y][x] = tak.Square{tak.MakePiece(many, tak.Flat)}
+			b[y2][x2] = tak.Square{tak.MakePiece(many, tak.Flat)}
+			groups++
+		}
+		c.stat("many_groups_boards", 1)
+		if groups > size {
+			c.stat("many_groups_boards_over_size", 1)
+		}
+		for _, mover := range []tak.Color{tak.White, tak.Black} {
+			move := 2 + 2*r.Intn(20)
+			if mover == tak.Black {
+				move++
+			}
+			emitC19(c, evPos(r, b.clone(), move, false, r.Intn(4) == 0), "many-groups", true)
+		}
+	}
 	// exhaustive small boards
 	maxk3, maxk4 := 2, 1
 	if !c.quick() {
